@@ -1,5 +1,139 @@
-(* C04 -- placeholder while the round-trip theorems are being proved *)
-From Httoop Require Import Model.Composer.
-Theorem C04_placeholder : EMPTY_SRC = EMPTY_SRC.
-Proof. exact eq_refl. Qed.
-Print Assumptions C04_placeholder.
+(* C04 -- a composed message parses back to the same message through the library's own opposite-side state machine.
+   Final statements only, each closed by [exact] and followed by Print Assumptions.
+
+   Two executable models are composed: the composer (Model/Composer.v, callees [C]: content coders, Element.split, codec
+   lookup) and the parser state machine (Model/Parser.v, reference configuration, callees [PC]: start-line parser with the
+   URI, header-semantics hooks, content decoder, RFC 2047, Trailer).  The theorems hold for EVERY pair of callee records;
+   what they need from the parser's callees is stated as explicit hypotheses at each theorem:
+     c_start PC line = SlOk info     the start-line callee accepts the composed line (start-line round trip: C18, URI: C10)
+     c_hdrs PC .. = HOk              the header-semantics hooks accept the delivered collection
+     decodes PC h wire content       the decoder callee turns the octets ON THE WIRE into the content (see C04_what_is_decoded)
+   Content-Length framing rests on the exact-delivery theorem of C02 (Proofs/ParserWf.v). *)
+From Coq Require Import ZArith.
+From Httoop Require Import Model.Composer Model.Http1Reader Proofs.Http1ReaderP Proofs.ComposerNum Proofs.ComposerHdrs Proofs.ComposerBody
+  Proofs.ComposerFraming Proofs.ComposerRepeat Proofs.ComposerParse.
+From Httoop Require Import Model.Parser Proofs.RoundTrip.
+Local Open Scope N_scope.
+
+(* the two number printers of the composer are read back by CPython's int() as modelled for the parser *)
+Theorem C04_chunk_size_roundtrip : forall n, py_int16_bytes (hex_print n) = Some (Z.of_N n).
+Proof. exact py_int16_hex_print. Qed.
+Print Assumptions C04_chunk_size_roundtrip.
+Theorem C04_content_length_text : forall n, dec_print n = dec_of_N n.
+Proof. exact dec_print_dec_of_N. Qed.
+Print Assumptions C04_content_length_text.
+
+(* header section: Headers.compose followed by Headers.parse is the collection of the same fields, values stripped,
+   in the order of the composed lines -- for every collection of unique canonical token names and CR/LF-free values
+   without list-valued fields *)
+Theorem C04_header_section : forall (C : ccallees) (h : hdrs), lsplit_clean C -> hdrs_ok h = true -> no_list_fields h = true -> h <> [] ->
+  let block := join_with CRLF (map line_of (sort_items h)) in
+  hcompose C h = block ++ CRLF ++ CRLF /\ block <> [] /\ prefixb CRLF block = false /\
+  cut (CRLF ++ CRLF) (block ++ CRLF) = None /\ hparse [] block = Some (delivered_hdrs h).
+Proof. exact composed_block. Qed.
+Print Assumptions C04_header_section.
+Theorem C04_delivered_lookup : forall k h, hdrs_ok h = true -> hget k (delivered_hdrs h) = option_map stripv (hget k h).
+Proof. exact hget_delivered. Qed.
+Print Assumptions C04_delivered_lookup.
+
+(* the three framings, for any start line / header collection / body octets of the composed shape *)
+Theorem C04_parse_content_length : forall (C : ccallees) (PC : callees) (k : kind), lsplit_clean C ->
+  forall line info h body,
+  no_lf line = true -> c_start PC line = SlOk info -> hdrs_ok h = true -> no_list_fields h = true -> h <> [] ->
+  hget H_TE h = None -> hget H_CE h = None -> hget H_CL h = Some (dec_print (Composer.blen body)) ->
+  host_ok k info h = true -> c_hdrs PC (p11 info) (delivered_hdrs h) = HOk ->
+  N.of_nat (List.length (dec_of_N (N.of_nat (List.length body)))) <= INT_MAX_STR_DIGITS -> body_allowed k info body = true ->
+  parse reference PC k init (line ++ CRLF ++ hcompose C h ++ body) =
+    (init, [ {| m_line := line; m_hdrs := delivered_hdrs h; m_body := body |} ], None).
+Proof. exact parse_composed_length. Qed.
+Print Assumptions C04_parse_content_length.
+Theorem C04_parse_no_body : forall (C : ccallees) (PC : callees) (k : kind), lsplit_clean C ->
+  forall line info h,
+  no_lf line = true -> c_start PC line = SlOk info -> hdrs_ok h = true -> no_list_fields h = true -> h <> [] ->
+  hget H_TE h = None -> hget H_CE h = None -> hget H_CL h = None ->
+  host_ok k info h = true -> c_hdrs PC (p11 info) (delivered_hdrs h) = HOk ->
+  parse reference PC k init (line ++ CRLF ++ hcompose C h) =
+    (init, [ {| m_line := line; m_hdrs := hset K_CL (dec_of_N 0) (delivered_hdrs h); m_body := [] |} ], None).
+Proof. exact parse_composed_nobody. Qed.
+Print Assumptions C04_parse_no_body.
+Theorem C04_parse_chunked : forall (C : ccallees) (PC : callees) (k : kind), lsplit_clean C ->
+  forall line info h coded content,
+  no_lf line = true -> c_start PC line = SlOk info -> p11 info = true -> hdrs_ok h = true -> no_list_fields h = true ->
+  hget H_TE h = Some TE_CHUNKED -> hget H_CL h = None ->
+  (match hget H_CE h with Some ce => c_decode PC (stripv ce) (concat_bytes coded) = DcOk content | None => concat_bytes coded = content end) ->
+  host_ok k info h = true -> c_hdrs PC (p11 info) (delivered_hdrs h) = HOk -> body_allowed k info content = true ->
+  parse reference PC k init (line ++ CRLF ++ hcompose C h ++ chunked_frame C [] coded) =
+    (init, [ {| m_line := line; m_hdrs := hdel K_TE (hset K_CL (dec_of_N (N.of_nat (List.length content))) (delivered_hdrs h)); m_body := content |} ], None).
+Proof. exact parse_composed_chunked. Qed.
+Print Assumptions C04_parse_chunked.
+
+(* ---- the round trip: prepare, compose, parse.  Exactly one message, the same start line, the composed fields
+   (Content-Length / Transfer-Encoding as the parser rewrites them), the content; nothing left over, machine idle.
+   [req_ok] / [resp_ok] are the API preconditions of C05 (incl. the exclusions D43/D46); further hypotheses name the
+   known findings: chunked framing needs HTTP/1.1 at the receiver (D47), a content coding goes with chunked framing,
+   responses that must not have a body are excluded (the client ignores RFC 7230 3.3.3 rule 1: D50), the start line is
+   accepted by the start-line callee (D48, D49 live there), no list-valued fields, no trailer. *)
+Theorem C04_request_roundtrip : forall (C : ccallees) (PC : callees), lsplit_clean C ->
+  forall vc now q q' info content,
+  req_ok q = true -> rd_no_crlf now = true -> q_prepare now q = Some q' ->
+  no_list_fields (q_hdrs q') = true -> b_trailer (q_body q') = [] ->
+  let line := q_method q ++ SP :: q_target q ++ SP :: StartLine.proto_compose (q_version q) in
+  c_start PC line = SlOk info ->
+  (hmem H_TE (q_hdrs q') = true -> p11 info = true) -> (hmem H_TE (q_hdrs q') = false -> hget H_CE (q_hdrs q') = None) ->
+  decodes PC (q_hdrs q') (q_content C vc q) content ->
+  host_ok Server info (q_hdrs q') = true -> c_hdrs PC (p11 info) (delivered_hdrs (q_hdrs q')) = HOk -> body_allowed Server info content = true ->
+  N.of_nat (List.length (dec_of_N (N.of_nat (List.length content)))) <= INT_MAX_STR_DIGITS ->
+  exists fr, hframing (q_hdrs q') fr /\
+    parse reference PC Server init (fst (q_compose C vc q')) =
+      (init, [ {| m_line := line; m_hdrs := delivered_for fr (q_hdrs q') content; m_body := content |} ], None).
+Proof. exact request_roundtrip. Qed.
+Print Assumptions C04_request_roundtrip.
+Theorem C04_response_roundtrip : forall (C : ccallees) (PC : callees), lsplit_clean C ->
+  forall v29 vc now r r' info content,
+  resp_ok r = true -> rd_no_crlf now = true -> r_prepare C v29 now r = Some r' ->
+  r_bodiless (r_code r) (r_rmethod r) = false ->
+  no_list_fields (r_hdrs r') = true -> b_trailer (r_body r') = [] ->
+  let line := StartLine.proto_compose (r_version r) ++ SP :: StartLine.print_dec (r_code r) ++ SP :: r_reason r in
+  c_start PC line = SlOk info ->
+  (hmem H_TE (r_hdrs r') = true -> p11 info = true) -> (hmem H_TE (r_hdrs r') = false -> hget H_CE (r_hdrs r') = None) ->
+  decodes PC (r_hdrs r') (concat_bytes (encode_pieces C vc (b_codec (r_body r')) (r_sent_pieces r))) content ->
+  c_hdrs PC (p11 info) (delivered_hdrs (r_hdrs r')) = HOk ->
+  N.of_nat (List.length (dec_of_N (N.of_nat (List.length content)))) <= INT_MAX_STR_DIGITS ->
+  exists fr, hframing (r_hdrs r') fr /\
+    parse reference PC Client init (fst (r_compose C vc r')) =
+      (init, [ {| m_line := line; m_hdrs := delivered_for fr (r_hdrs r') content; m_body := content |} ], None).
+Proof. exact response_roundtrip. Qed.
+Print Assumptions C04_response_roundtrip.
+
+(* every field other than Content-Length / Transfer-Encoding is delivered with the (stripped) value it was composed with,
+   and (requests) every field the composer does not manage is composed with the value the caller set *)
+Theorem C04_delivered_field : forall fr h content key, hdrs_ok h = true -> bytes_eqb key K_CL = false -> bytes_eqb key K_TE = false ->
+  hget key (delivered_for fr h content) = option_map stripv (hget key h).
+Proof. exact delivered_field. Qed.
+Print Assumptions C04_delivered_field.
+Theorem C04_request_caller_fields : forall now q q' key, te_simple (q_hdrs q) = true -> src_ok (b_src (q_body q)) = true ->
+  q_prepare now q = Some q' -> mem_bytes key Q_MANAGED = false -> hget key (q_hdrs q') = hget key (q_hdrs q).
+Proof. exact request_caller_fields. Qed.
+Print Assumptions C04_request_caller_fields.
+
+(* what the decoder is asked to decode, stated as the code does it: per piece on the pinned tree, once after repair D42 *)
+Theorem C04_what_is_decoded : forall C id ps,
+  concat_bytes (encode_pieces C AsFound (Some id) ps) = concat_bytes (map (cc_comp C id) ps) /\
+  (ps <> [] -> concat_bytes (encode_pieces C Repaired (Some id) ps) = cc_comp C id (concat_bytes ps)).
+Proof. exact (fun C id ps => conj (payload_asfound C id ps) (payload_repaired C id ps)). Qed.
+Print Assumptions C04_what_is_decoded.
+Theorem C04_coded_roundtrip_repaired : forall C PC id h ce ps, hget H_CE h = Some ce -> ps <> [] ->
+  (forall x, c_decode PC (stripv ce) (cc_comp C id x) = DcOk x) ->
+  decodes PC h (concat_bytes (encode_pieces C Repaired (Some id) ps)) (concat_bytes ps).
+Proof. exact decodes_repaired. Qed.
+Print Assumptions C04_coded_roundtrip_repaired.
+Theorem C04_coded_roundtrip_asfound_partial : forall C PC id h ce x, hget H_CE h = Some ce ->
+  (forall x, c_decode PC (stripv ce) (cc_comp C id x) = DcOk x) ->
+  decodes PC h (concat_bytes (encode_pieces C AsFound (Some id) [x])) (concat_bytes [x]).
+Proof. exact decodes_asfound_single. Qed.
+Print Assumptions C04_coded_roundtrip_asfound_partial.
+Theorem C04_coded_roundtrip_asfound : forall C PC id h ce ps, hget H_CE h = Some ce ->
+  (forall xs, c_decode PC (stripv ce) (concat_bytes (map (cc_comp C id) xs)) = DcOk (concat_bytes xs)) ->
+  decodes PC h (concat_bytes (encode_pieces C AsFound (Some id) ps)) (concat_bytes ps).
+Proof. exact decodes_asfound_multi. Qed.
+Print Assumptions C04_coded_roundtrip_asfound.
